@@ -226,4 +226,7 @@ def File.wf (f : File) : Bool := f.items.wf .file f.endGap && f.items.countElems
     `*-leading-whitespace-offset-shift`). The model covers those inputs. -/
 def File.noLeadingWs (f : File) : Bool := f.items.firstGap == some []
 
+/-- THE FRAGMENT: the files the model covers (the driver answers `(uncovered …)` for all others) -/
+def File.covered (f : File) : Bool := f.wf && f.noLeadingWs
+
 end Nima.Frag
